@@ -270,6 +270,59 @@ def composite_stream(res, rng, tier, GroupBy):
             res.violations.append(dict(sig=dict(stream="composite", what="raised", which=which, exc=type(e).__name__), case=case, observed=repr(e)[:200], expected="a result", what=f"{which} raised"))
 
 
+def float_model_stream(res, rng, tier, GroupBy):
+    """Tie A in IEEE-754 for GroupBy.var (float64 values, one kernel thread): the real method against Model/VarFloat64.v, a
+    bit-exact transcription of the one-pass formula in Coq's primitive floats, per group in row order; magnitudes up to 1e200,
+    offsets far larger than the spread, infinities, NaN, empty groups, ddof 0-2.  Evaluated by vm_compute in one coqc call."""
+    import os
+    import subprocess
+    import warnings
+    from ..common import VERIF, COQ
+    alpha = [float("nan"), 1.0, 2.5, -3.0, 0.5, 0.1, 0.7, 4.0, 1e8 + 1, 1e8 + 2, 1e8 + 3, 1e16, -1e16, 1e9 + 0.125, float("inf"), float("-inf"), 1e150, 1e200, 5e-324, -0.0, 1e-300]
+
+    def lit(x):
+        x = float(x)
+        if x != x:
+            return "nan"
+        if x == float("inf"):
+            return "infinity"
+        if x == float("-inf"):
+            return "neg_infinity"
+        h = x.hex()
+        return "(" + h + ")" if h.startswith("-") else h
+    cases = []
+    for t in range(300 if tier == "quick" else 3000):
+        L = rng.randint(1, 14)
+        ng = rng.randint(1, 3)
+        keys = [rng.randrange(ng) for _ in range(L)]
+        vals = [rng.choice(alpha if rng.random() < 0.6 else alpha[:11]) for _ in range(L)]
+        ddof = rng.choice([0, 1, 1, 2])
+        with warnings.catch_warnings():
+            warnings.simplefilter("ignore")
+            out = GroupBy(np.array(keys, dtype="int64")).var(np.array(vals, dtype="float64"), ddof=ddof)
+        for lab, o in zip(out.index.tolist(), out.tolist()):
+            cases.append((ddof, [v for k, v in zip(keys, vals) if k == lab], float(o)))
+        res.note_case(repr(("var-float-model", keys, [lit(v) for v in vals], ddof)), True)
+        res.count("stream", "var-float-model")
+    d = VERIF / ".cache" / "vfloat" / str(os.getpid())
+    d.mkdir(parents=True, exist_ok=True)
+    body = ";\n  ".join(f"(({ddof})%Z, [{'; '.join(lit(v) for v in vals)}], {lit(out)})" for ddof, vals, out in cases)
+    (d / "cases.v").write_text("From Coq Require Import List ZArith PrimFloat.\nFrom GL Require Import Model.VarFloat64.\nImport ListNotations.\nOpen Scope float_scope.\n"
+                               "Definition cases : list (Z * list float * float) :=\n  [" + body + "].\nEval vm_compute in map check_var cases.\n")
+    p = subprocess.run(["timeout", "600", "coqc", "-Q", str(COQ / "theories"), "GL", "cases.v"], cwd=d, stdout=subprocess.PIPE, stderr=subprocess.STDOUT)
+    txt = p.stdout.decode(errors="replace")
+    flags = [w for w in txt.replace("[", " ").replace("]", " ").replace(";", " ").split() if w in ("true", "false")]
+    for f in d.iterdir():
+        f.unlink()
+    d.rmdir()
+    if p.returncode != 0 or len(flags) != len(cases):
+        res.model_mismatches.append(dict(case="var-float-model", impl="-", model=f"coqc failed or printed {len(flags)} results for {len(cases)} cases: " + txt[-400:]))
+        return
+    for (ddof, vals, out), ok in zip(cases, flags):
+        if ok != "true":
+            res.model_mismatches.append(dict(case=dict(stream="var-float-model", ddof=ddof, group_values=[lit(v) for v in vals]), impl=lit(out), model="Model/VarFloat64.var_f64 gives another bit pattern"))
+
+
 def run(res, tier="quick", seed=0, widen=False):
     global DRV
     DRV = Driver()
@@ -278,11 +331,13 @@ def run(res, tier="quick", seed=0, widen=False):
     res.rule = ("var/std: seeded groups (1-14 rows, nulls, masks, float64/float32/int64, offsets to 1e8, magnitudes 1e-6..1e6, ddof 0/1) vs exact two-pass variance within "
                 "the PROVED rounding bound var_bound (Coq, extracted; ~ 3 n u max|x|^2 n/(n-ddof)); median/quantile vs NumPy per group incl. masked-out groups and unsorted first appearance; apply with scalar / fixed-length / aligned functions "
                 "vs per-group calls in row order; agg lists and frames vs individual calls; ratio vs sum/sum; single-key density vs shares adding up to 100; "
+                "GroupBy.var on float64 (groups of 1-14 rows, magnitudes to 1e200, offsets, inf, NaN, ddof 0-2) BIT FOR BIT against the primitive-float model Model/VarFloat64.v evaluated inside Coq; "
                 "non-trivial: every case; distinct = canonical case")
     var_stream(res, rng, tier, GroupBy)
     quantile_stream(res, rng, tier, GroupBy)
     apply_stream(res, rng, tier, GroupBy)
     composite_stream(res, rng, tier, GroupBy)
+    float_model_stream(res, rng, tier, GroupBy)
 
 
 def replay(payload):
